@@ -141,7 +141,12 @@ class Instance:
                     self.mv = lambda X: Kmv(X) + self.d[:, None] * X
             if kind == "KronScaled":
                 Kop, Kmv = self.op, self.mv
-                self.op = 2.0 * Kop
+                # the scalar in every spelling a caller uses: Python float, NumPy scalar, 0-d array, one-element arrays with an
+                # axis (a slice of a parameter vector), from either side, as a quotient
+                form = int(rng.integers(0, 7))
+                self.scalar_form = ["float*A", "A*float", "npscalar*A", "arr0*A", "arr1*A", "A*arr11", "A/float"][form]
+                self.op = [lambda: 2.0 * Kop, lambda: Kop * 2.0, lambda: np.float64(2.0) * Kop, lambda: np.array(2.0) * Kop,
+                           lambda: np.array([2.0]) * Kop, lambda: Kop * np.array([[2.0]]), lambda: Kop / 0.5][form]()
                 self.mv = lambda X: 2.0 * Kmv(X)
         elif kind == "BlockDiag":
             b = int(rng.integers(2, 4))
@@ -230,6 +235,8 @@ def run_case(ctx, case):
     rng = P.rng_for("c19", case["seed"])
     inst = Instance(case["kind"], rng, case.get("side"))
     ctx.count("side_of_1e6_entries", "n<=1000" if inst.n <= 1000 else "n>1000")
+    if getattr(inst, "scalar_form", None):
+        ctx.count("scalar_form", inst.scalar_form)
     n = inst.n
     A = inst.op
     e = case["entry"]
@@ -384,7 +391,7 @@ def verify(case, inst, e, out, x, X):
             want = n * np.log(1.5)
         else:
             want = 0.0
-        return bool(abs(complex(np.asarray(val)) - want) <= 1e-7 * max(abs(want), 1.0)), {"got": complex(np.asarray(val)), "want": float(want)}
+        return bool(abs(complex(np.asarray(val).reshape(-1)[0]) - want) <= 1e-7 * max(abs(want), 1.0)), {"got": complex(np.asarray(val).reshape(-1)[0]), "want": float(want)}
     if e in ("diag", "trace"):
         if kind in ("Kronecker", "KronPlusDiag", "KronDiag", "KronScaled"):
             d = Fs[0].diagonal()
